@@ -189,3 +189,31 @@ def structured(rng, cls: str, m: int, n: int) -> np.ndarray:
 
 def is_square_class(cls: str) -> bool:
     return cls in ("herm_psd", "herm_nsd", "herm_indef", "unitary")
+
+
+def history_forms(A: np.ndarray, hermitian: bool = False):
+    """Generator of (label, array) for call histories over ONE buffer: the caller's own object, the same object after in-place updates,
+    and views of it that keep its address but not its strides / extent.  The consumer must use each array before asking for the next
+    (the in-place updates happen in between).  hermitian=True keeps every yielded matrix Hermitian."""
+    import quaternion
+    m, n = A.shape
+    c = quaternion.as_float_array(A)
+    yield "first_call", A
+    if hermitian:
+        c *= -3.0
+        for i in range(min(m, n)):
+            c[i, i, 0] += 1.5 + i
+    else:
+        c[[0, m - 1]] = c[[m - 1, 0]].copy()
+        c[m // 2, 0] += np.array([1.5, -0.5, 0.25, 2.0])
+        c *= -3.0
+    yield "after_inplace_update", A
+    if m == n and n >= 2:
+        yield "transposed_view_of_previous", A.T
+        yield ("both_axes_reversed_view_of_previous", A[::-1, ::-1]) if hermitian else ("rows_reversed_view_of_previous", A[::-1])
+    if not hermitian and n >= 2:
+        yield "columns_reversed_view_of_previous", A[:, ::-1]
+    if m >= 3 and n >= 3:
+        yield "leading_block_of_previous", A[: m - 1, : n - 1]
+        yield "trailing_block_of_previous", A[1:, 1:]
+    yield "parent_again", A
